@@ -223,10 +223,10 @@ Fixpoint load_modules_c (fuel : nat) (vm : mstate) (cs : cstate) (u : N) (ms : l
   match ms with
   | [] => (vm, cs, u, [], SOk)
   | m :: r =>
-      let '(vm1, cs1, out, s) := run_unit_c fuel vm cs u (mu_layout m) (mu_body m) in
+      let '(vm1, cs1, out, s) := if mu_run m then run_unit_c fuel vm cs u (mu_layout m) (mu_body m) else (vm, cs, [], SOk) in
       match s with
       | SOk =>
-          let vm2 := if MODULE_SYNCS_BEFORE_EXPORTS then sync_loaded vm1 else vm1 in
+          let vm2 := if MODULE_SYNCS_BEFORE_EXPORTS && mu_run m then sync_loaded vm1 else vm1 in
           let vm3 := fold_left (fun v e => set_name v (fst e) (glookup (gmap v) (snd e))) (mu_exports m) vm2 in
           let cs2 := match mu_exports m with [] => cs1 | _ => clear cs1 end in       (* set_global clears the cache *)
           let '(vm4, cs3, u', out2, s2) := load_modules_c fuel vm3 cs2 (N.succ u) r in (vm4, cs3, u', out ++ out2, s2)
@@ -280,6 +280,7 @@ Definition mstep_c (fuel : nat) (cd : cdstate) (st : step) : cdstate * list Z * 
           end
       | _ => (cd, [], SErr)
       end
+  | SSet n v => (mkCD (mkD (set_name (d_vm d) n v) (d_known d) (d_mut d)) (clear (cd_cs cd)) (cd_unit cd), [], SOk)
   end.
 
 Fixpoint msession_c (fuel : nat) (cd : cdstate) (steps : list step) : list (list Z * status) :=
